@@ -239,6 +239,16 @@ def contract(m: Model, op, recursive=True, full=False):
             if recursive:
                 for rel, kind in op[1]:
                     R.add(ev("created", kind == "d", d + "/" + rel, "", True))
+    elif k == "moveback":
+        # op = ["moveback", "out/oN", dst]: an entry that left the tree earlier (same inode, same contents) comes back
+        s, d = op[1], op[2]
+        isd = m.kind(s) == "d"
+        if in_scope(d, recursive):
+            R.add(ev("moved", isd, "", d) if full else ev("created", isd, d))
+            dirmod(parent(d))
+            if recursive and isd:
+                for q in m.subtree(s):
+                    R.add(ev("created", m.kind(q) == "d", d + q[len(s):], "", True))
     elif k == "rmroot":
         # the content is removed bottom-up, then the root itself: exactly one DirDeleted(root), nothing outside the scope
         for q in m.subtree(ROOT):
@@ -281,6 +291,8 @@ def apply(m: Model, op):
         m.move(op[1], op[2])
     elif k == "moveout":
         m.move(op[1], OUT + "/" + op[2])
+    elif k == "moveback":
+        m.move(op[1], op[2])
     elif k == "movein_file":
         m.add(op[2], "f")
     elif k == "movein_tree":
@@ -370,6 +382,10 @@ def valid(m: Model, op, paced=True, paced_out=True):
         if paced and m.kind(s) == "d" and m.eid(s) in m.tainted_ids:
             return False  # only rename-to-fresh-name, chmod and rmdir are allowed on a just-arrived directory
         return s in t and s != ROOT and is_under(s, ROOT) and not untouchable(s) and (OUT + "/" + op[2]) not in t
+    if k == "moveback":
+        s = op[1]
+        # the directory itself may move again right after it arrived outside; its contents are not touched
+        return s in t and parent(s) == OUT and t[s][0] in ("d", "f") and free_name(op[2]) and is_under(op[2], ROOT)
     if k == "movein_file":
         return free_name(op[2]) and is_under(op[2], ROOT)
     if k == "movein_tree":
@@ -430,6 +446,13 @@ def taint_after(m_before: Model, m: Model, op):
                 if m_before.kind(q) == "d":
                     m.tainted_names.add(q)
                     m.taint(OUT + "/" + op[2] + q[len(s):])
+    elif k == "moveback":
+        if m.kind(op[2]) == "d":
+            m.taint(op[2])
+            m.tainted_names.add(op[1])
+            for q in m.subtree(op[2]):
+                if m.kind(q) == "d":
+                    m.taint(q)
     elif k == "movein_tree":
         m.taint(op[2])
         for rel, kind in op[1]:
@@ -450,7 +473,7 @@ TREE_SHAPES = [
 
 DEFAULT_WEIGHTS = {
     "mkfile": 3, "write": 2, "chmod": 1, "unlink": 2, "mkdir": 3, "makedirs": 1, "rmdir": 1, "rmtree": 1,
-    "rename": 4, "moveout": 1, "movein_file": 1, "movein_tree": 1, "drain": 3, "burst": 1, "mkspecial": 1,
+    "rename": 4, "moveout": 1, "movein_file": 1, "movein_tree": 1, "drain": 3, "burst": 1, "mkspecial": 1, "moveback": 1,
 }
 
 
@@ -522,6 +545,10 @@ def gen_ops(rng: random.Random, m: Model, n, names=("a", "b", "c"), max_depth=3,
             es = sorted(q for q in m.t if is_under(q, ROOT) and q != ROOT)
             if es:
                 op = [k, rng.choice(es), f"o{outn[0]}"]
+        elif k == "moveback":
+            outs = sorted(q for q in m.t if parent(q) == OUT and q.startswith(OUT + "/o"))
+            if outs:
+                op = [k, rng.choice(outs), p]
         elif k == "movein_file":
             op = [k, f"s{outn[0]}", p]
         elif k == "movein_tree":
